@@ -163,6 +163,12 @@ func c06check(w *Worker, cs c06case, hook bool, idx int64) {
 		}()
 		if built {
 			c06inContainer(w, cs, d, x, true)
+			if d.Verb == "p" {
+				bc.resetCounters()
+				rv := cs
+				rv.RVForm = 9
+				c06inContainer(w, rv, d, x, true)
+			}
 		}
 		return
 	}
@@ -216,6 +222,15 @@ func c06check(w *Worker, cs c06case, hook bool, idx int64) {
 		}
 	}
 	if out.panicked {
+		// legitimate when printing x panics under fmt too (a payload whose own printing panics); x that fmt prints differently
+		// by design (scripts, re-entrant formatters) cannot be compared
+		if !containsKind(cs.X, "Reentrant", "SafeFmt", "SafeFmtErr", "PSafeFmtErr", "SafeMsg", "Builder", "PBuilder", "Safe", "Unsafe") {
+			bc.resetCounters()
+			if fo := fmtWith(d, x); !fo.panicked {
+				w.Violate("C06 panic", "printing "+cs.Word+"(x) panicked ("+pvalString(out.pval)+") where fmt prints x as "+q(fo.out)+" for "+cs.String(), csf())
+				return
+			}
+		}
 		w.Count("propagated_panics", 1)
 		return
 	}
@@ -314,6 +329,9 @@ func c06check(w *Worker, cs c06case, hook bool, idx int64) {
 // whatever path the printer takes.
 func c06inContainer(w *Worker, cs c06case, d Dir, x interface{}, array bool) bool {
 	mk := func(v interface{}) interface{} {
+		if array && cs.RVForm == 9 {
+			return reflect.ValueOf(v) // %p / %w of a reflect.Value: a bad verb, reported around the value it holds
+		}
 		if array {
 			return [1]interface{}{v}
 		}
